@@ -11,6 +11,7 @@ COMMON_TRUSTED = [
 
 # (file under coq/Gen, acra-vh arguments that print it): regenerated from /repo on every run
 GENERATORS = [
+    ("CensorLogSites.v", ["c16fwsites"]),
     ("ColumnResolveConsts.v", ["c04colconsts"]),
     ("ColumnResolveWitness.v", ["c04colwitness"]),
     ("AuditLogCanon.v", ["auditlogcanon"]),
@@ -236,13 +237,22 @@ PROPS = {
                 "n_quick": 500,
                 "n_thorough": 4200,
                 "model": True
+            },
+            {
+                "name": "c16fw",
+                "run_vo": "Model/RunCensorLog.vo",
+                "n_quick": 400,
+                "n_thorough": 6000,
+                "model": True
             }
         ],
         "trusted": [
             "Gen/SqlSchema.v is printed by `acra-vh sqlschema` (go/parser over the sqlparser sources compiled into the harness): node types, SQLNode-typed fields, the fields each walkSubtree hands to Walk, the ValType enum, sqlToBindvar's conversion table, the redact-mode flag, HandleRawSQLQuery's NotParsedStatement branch, the arguments of the partial-DDL log call, and for the normalizer's visit functions WalkStatement/WalkSelect what each case of the type switch does with the node and returns to Walk (abstract run of the clause's statements for both answers of convertComparison; VISIT_STATEMENT, VISIT_SELECT, CMP_REPORTS_*). The extraction is syntactic (selectors on the receiver inside walkSubtree count as walked; a clause the reader does not understand is printed as VA_unknown/VR_unknown and stops the proof); the visit tables are cross-checked on every run by a probe of the compiled package (VISIT_PROBE: sentinel literals below each specially handled node kind, theorem C16_visit_probe_agrees)",
             "modelled, not verified: the SQL grammar and printer (which literal positions exist, how a tree is printed) - covered only by the marker oracle on the real parser; reflection-based AST -> generic tree conversion in the harness; sqltypes.NewValue's accept/reject answer is an input of the model (field ok of AVal)",
             "hook sqlparser/export_verif.go (VerifRedactInPlace = Redact with the ValueMask prefix); the oracle compares its printed result with HandleRawSQLQuery's redacted text on every case",
-            "the firewall/proxy log model (censor_handle, proxy_debug_log, partial_ddl_log) is tied to the code by the log-capturing oracle only, not replayed case by case"
+            "Gen/CensorLogSites.v is printed by `acra-vh c16fwsites` (go/ast over acra-censor/acra-censor_implementation.go, acra-censor/handlers/*.go, and the named results of Parser.HandleRawSQLQuery in sqlparser/ast_methods.go): every call of AcraCensor.HandleQuery that logs, calls one of the firewall's own methods, a handler's CheckQuery, or receives a value derived from the statement, with the branch of the control flow it stands in (from the enclosing conditions) and which value each argument is (raw statement / normalized / redacted text / parsed statement: flow-insensitive propagation through the assignments); the guarded clauses and log calls of logAllowedQuery / logDeniedQuery (level, format, which parameter each argument or field value refers to, %T or not); the log calls of the handlers' CheckQuery methods. Syntactic: a log call is a logrus level method on a receiver chain rooted in `log`/`logrus`/`*logger`; what the reader does not understand is printed as CB_unknown / CA_unknown / CS_unknown and stops the proof (tables_understood)",
+            "the control-flow skeleton of HandleQuery in Model/CensorLog.v (which branches run for which handler verdicts) is hand-written and tied to the code by the replay of real firewall runs (domain c16fw, Model/RunCensorLog.v: log entries of logger service=acra-censor compared entry by entry: level, message head, which text of the statement the entry carries); handler verdicts are inputs (asked of the real handler objects one by one through the hook acra-censor/export_verif.go VerifHandlers)",
+            "the older hand-written log model of Model/SqlRedact.v (censor_handle, proxy_debug_log, partial_ddl_log) is tied to the code by the log-capturing oracle only; the proxies are not run"
         ],
         "assumptions": [
             "literal ValTypes = every member of the ValType enum except ValArg, PgPlaceholder, UnknownVal (specification, Model/SqlRedact.v non_literal_names)",
@@ -520,7 +530,7 @@ PROPS = {
             "modelled, not verified: token metadata times (created/accessed) and access-time granularity; redis store; Go-level data races (every storage operation is atomic in the model)",
             "the encrypting storage wrapper is modelled as transparent except for Secure Cell's refusal of empty messages; its round trip is C01/C03's AcraBlock theorem",
             "protobuf (TokenValue) is modelled for the two fields the tokenizer writes; math/rand.Int31n over the crypto source is re-implemented byte-exactly and validated by every replayed case",
-            "inline literals of the acra code not reachable by the generator: \"client\"/\"zone\" (generateDataID, AggregateTokenContextToBytes), len(\"a@b.cc\")/len(\"a@b.cdef\") (randomEmail)"
+            "inline literals of the acra code not reachable by the generator: \"client\"/\"zone\" (generateDataID, AggregateTokenContextToBytes); the two length thresholds of randomEmail (inline len(\"a@b.cc\")/len(\"a@b.cdef\")) are MEASURED by the tokenconsts generator on the compiled tokenizer (lengths 0..24 x every forced TLD index) - that the code has exactly the two-threshold structure of the model is validated by the replay (e-mail length x TLD sweep)"
         ],
         "assumptions": [
             "consistency/injectivity/reversibility theorems are over histories without token removal (and reversibility without disabling) - the refuted variants show the premises are necessary",
